@@ -1,5 +1,140 @@
-import Summer.Model.Run
-namespace Summer.Props.C18
-theorem placeholder : True := trivial
-end Summer.Props.C18
-#print axioms Summer.Props.C18.placeholder
+import Summer.Proofs.Rates
+/-
+C18 — no (population-proportional) flow draws from an empty compartment: the rate function is
+quasi-positive, and the infection multipliers are non-negative.
+-/
+namespace Summer.C18
+open Summer Summer.Run Summer.Spec Summer.Proofs
+
+section
+variable {α : Type} [Field α] [LinearOrder α] [IsStrictOrderedRing α]
+
+/-- `clean_compartments` never returns a negative entry -/
+theorem clean_nonneg (x : List α) : ∀ v ∈ cleanV x, 0 ≤ v := cleanV_NN x
+
+/-- a non-positive entry is cleaned to exactly zero -/
+theorem clean_zero (x : List α) (c : Nat) (h : x.getD c 0 ≤ 0) : (cleanV x).getD c 0 = 0 :=
+  cleanV_getD_of_nonpos x c h
+
+/-- With non-negative weights, multipliers and (cleaned) state, every flow rate is non-negative. -/
+theorem flowRates_nonneg (m : Model α) (b : Backend) (h : prepare m = .ok b) (w xc mults : List α)
+    (hwl : w.length = m.flows.length) (hw : ∀ v ∈ w, 0 ≤ v) (hx : ∀ v ∈ xc, 0 ≤ v) (hm : ∀ v ∈ mults, 0 ≤ v) :
+    ∀ v ∈ flowRates b w xc mults, 0 ≤ v :=
+  flowRates_NN (backendFor_of_prepare m b h) w xc mults hwl hw hx hm
+
+/-- Quasi-positivity.  If every flow whose source is compartment `c` is population-proportional
+(transition, infection or death — i.e. not an `absolute` flow, and not an entry-kind flow that was
+given a source), all weights, multipliers and cleaned-state entries are non-negative and compartment
+`c` is empty, then the rate of compartment `c` is non-negative.  `c` is any natural number. -/
+theorem quasi_positive (m : Model α) (b : Backend) (h : prepare m = .ok b) (c : Nat)
+    (hsrc : ∀ f ∈ m.flows, Spec.srcIx m f = some c → Spec.isSourced f.kind = true)
+    (w xc mults : List α) (hwl : w.length = m.flows.length)
+    (hw : ∀ v ∈ w, 0 ≤ v) (hm : ∀ v ∈ mults, 0 ≤ v) (hx : ∀ v ∈ xc, 0 ≤ v) (hxc : xc.getD c 0 = 0) :
+    0 ≤ (compRates b (flowRates b w xc mults)).getD c 0 :=
+  quasi_positive_aux (backendFor_of_prepare m b h) w xc mults hwl hw hx hm c hsrc hxc
+
+/-- The same with the hypothesis in the form "entry-kind flows have no source (`entryOk`, true of all
+API-built models) and no `absolute` flow has source `c`". -/
+theorem quasi_positive' (m : Model α) (b : Backend) (h : prepare m = .ok b) (c : Nat)
+    (hentry : Spec.entryOk m = true)
+    (habs : ∀ f ∈ m.flows, f.kind = .absolute → Spec.srcIx m f ≠ some c)
+    (w xc mults : List α) (hwl : w.length = m.flows.length)
+    (hw : ∀ v ∈ w, 0 ≤ v) (hm : ∀ v ∈ mults, 0 ≤ v) (hx : ∀ v ∈ xc, 0 ≤ v) (hxc : xc.getD c 0 = 0) :
+    0 ≤ (compRates b (flowRates b w xc mults)).getD c 0 := by
+  refine quasi_positive m b h c ?_ w xc mults hwl hw hm hx hxc
+  intro f hf hs
+  have he := List.all_eq_true.1 hentry f hf
+  have hsome : f.src.isNone = false := by
+    cases hsrc : f.src with
+    | none => simp [Spec.srcIx, hsrc] at hs
+    | some _ => rfl
+  cases hk : f.kind
+  case absolute => exact absurd hs (habs f hf hk)
+  all_goals first | rfl | (simp [hk, hsome, Spec.isEntryKind] at he)
+
+/-- Corollary on raw states: the state `x` is arbitrary (entries of any sign); whenever `x[c] ≤ 0` the
+rate of compartment `c` computed from the cleaned state is non-negative. -/
+theorem quasi_positive_raw (m : Model α) (b : Backend) (h : prepare m = .ok b) (c : Nat)
+    (hsrc : ∀ f ∈ m.flows, Spec.srcIx m f = some c → Spec.isSourced f.kind = true)
+    (w x mults : List α) (hwl : w.length = m.flows.length)
+    (hw : ∀ v ∈ w, 0 ≤ v) (hm : ∀ v ∈ mults, 0 ≤ v) (hxc : x.getD c 0 ≤ 0) :
+    0 ≤ (compRates b (flowRates b w (cleanV x) mults)).getD c 0 :=
+  quasi_positive m b h c hsrc w (cleanV x) mults hwl hw hm (clean_nonneg x) (clean_zero x c hxc)
+
+/-- The infection multipliers (and the per-strain force-of-infection vectors) are non-negative when
+the state, the mixing matrix and the compartment infectiousness are.  This holds for ANY backend and
+for both the density and the frequency process; for frequency no positivity of the category
+populations is needed because in a field `a / 0 = 0`, so each prevalence `infPop / catPop` is `≥ 0`
+as soon as numerator and denominator are `≥ 0`. -/
+theorem multipliers_nonneg (b : Backend) (x : List α) (mix : Matrix α) (compInf : List α)
+    (hx : ∀ v ∈ x, 0 ≤ v) (hmix : ∀ row ∈ mix, ∀ v ∈ row, 0 ≤ v) (hci : ∀ v ∈ compInf, 0 ≤ v) :
+    (∀ v ∈ (infectiousMultipliers b x mix compInf).1, 0 ≤ v) ∧
+    (∀ l ∈ (infectiousMultipliers b x mix compInf).2, ∀ v ∈ l, 0 ≤ v) :=
+  infectiousMultipliers_NN b x mix compInf hx hmix hci
+
+/-- All together, for the rate function the solvers see: with non-negative weights, mixing matrix and
+infectiousness, a compartment whose raw value is `≤ 0` and from which only population-proportional
+flows draw has a non-negative rate. -/
+theorem quasi_positive_step (m : Model α) (b : Backend) (h : prepare m = .ok b) (c : Nat)
+    (hsrc : ∀ f ∈ m.flows, Spec.srcIx m f = some c → Spec.isSourced f.kind = true)
+    (w x compInf : List α) (mix : Matrix α) (hwl : w.length = m.flows.length)
+    (hw : ∀ v ∈ w, 0 ≤ v) (hmix : ∀ row ∈ mix, ∀ v ∈ row, 0 ≤ v) (hci : ∀ v ∈ compInf, 0 ≤ v)
+    (hxc : x.getD c 0 ≤ 0) :
+    0 ≤ (compRates b (flowRates b w (cleanV x)
+      (infectiousMultipliers b (cleanV x) mix compInf).1)).getD c 0 :=
+  quasi_positive_raw m b h c hsrc w x _ hwl hw
+    (multipliers_nonneg b (cleanV x) mix compInf (clean_nonneg x) hmix hci).1 hxc
+
+end
+
+/-! ## non-vacuity, and the `absolute`-flow exception -/
+section example_
+def cS : Comp := ⟨"S", []⟩
+def cI : Comp := ⟨"I", []⟩
+def cR : Comp := ⟨"R", []⟩
+
+def exModel : Model Rat :=
+  { t0 := 0, t1 := 10, dt := 1, nTimes := 11,
+    comps := [cS, cI, cR], origNames := ["S", "I", "R"], infectious := ["I"],
+    flows := [
+      { kind := .infFreq, name := "infection", src := some cS, dst := some cI, param := .const 2, adjs := [] },
+      { kind := .transition, name := "recovery", src := some cI, dst := some cR, param := .const (1/2), adjs := [] },
+      { kind := .death, name := "death", src := some cI, dst := none, param := .const (1/10), adjs := [] },
+      { kind := .crudeBirth, name := "births", src := none, dst := some cS, param := .const (1/50), adjs := [] },
+      { kind := .absolute, name := "waning", src := some cR, dst := some cS, param := .const 3, adjs := [] } ],
+    strats := [], mixingCats := [[]], mixingMats := [], strains := ["default"],
+    initDist := none, arrayPop := none, actions := [], requests := [], computed := [], whitelist := [],
+    finalized := true }
+
+example : (prepare exModel).toOption.isSome = true := by decide
+example : Spec.entryOk exModel = true := by decide
+/-- compartments S (0) and I (1) satisfy the hypothesis; R (2), the source of the absolute flow, does not -/
+example : (∀ f ∈ exModel.flows, Spec.srcIx exModel f = some 0 → Spec.isSourced f.kind = true) ∧
+    (∀ f ∈ exModel.flows, Spec.srcIx exModel f = some 1 → Spec.isSourced f.kind = true) ∧
+    ¬ (∀ f ∈ exModel.flows, Spec.srcIx exModel f = some 2 → Spec.isSourced f.kind = true) := by decide
+
+/-- state with S below zero and I, R empty: the rates of S and I are `≥ 0`; the rate of the empty
+compartment R is `-3` because of the absolute flow — the exception in the hypothesis is necessary. -/
+example : (prepare exModel).toOption.map (fun b =>
+      compRates b (flowRates b ([2, 1/2, 1/10, 1/50, 3] : List Rat) (cleanV [-5, 0, 0]) [0])) = some [3, 0, -3] := by
+  decide +kernel
+example : (prepare exModel).toOption.map (fun b =>
+      compRates b (flowRates b ([2, 1/2, 1/10, 1/50, 3] : List Rat) (cleanV [-5, 40, 10]) [4/5])) = some [4, -24, 17] := by
+  decide +kernel
+/-- the multipliers really are computed by division by a category population that may be zero -/
+example : (prepare exModel).toOption.map (fun b => (infectiousMultipliers b (cleanV [-5, 0, 0]) [[1]] [1, 1, 1]).1)
+    = some [(0 : Rat)] ∧
+    (prepare exModel).toOption.map (fun b => (infectiousMultipliers b (cleanV [-5, 40, 10]) [[1]] [1, 1, 1]).1)
+    = some [(4/5 : Rat)] := by decide +kernel
+end example_
+
+#print axioms clean_nonneg
+#print axioms clean_zero
+#print axioms flowRates_nonneg
+#print axioms quasi_positive
+#print axioms quasi_positive'
+#print axioms quasi_positive_raw
+#print axioms multipliers_nonneg
+#print axioms quasi_positive_step
+
+end Summer.C18
